@@ -14,6 +14,15 @@ Step ==
        /\ fails' = IF e.err = "" /\ Partitions(e.chunks, e.n) /\ e.results = Len(e.chunks)
                      THEN fails ELSE Append(fails, <<l, "chunks do not partition the input, or results # chunks">>)
        /\ drift' = IF e.chunks = Chunks(e.n, e.threads, e.maxchunk) THEN drift ELSE Append(drift, l)
+     ELSE IF e.op = "lazy" THEN
+       \* concurrent.Lazily (beyond the listed properties; see Lazily.tla): values 1, 2, 3, ... in order,
+       \* nils only after the reaper fired, evaluations at most lookahead + 2 ahead of the consumer.
+       \* A mismatch is reported as drift, not as a violation of C19.
+       /\ UNCHANGED <<n, th, mc, fails>>
+       /\ drift' = IF /\ \A i \in 1..Len(e.values) :
+                           e.values[i] = i \/ (e.values[i] = 0 /\ e.reapat >= 0 /\ \A j \in i..Len(e.values) : e.values[j] = 0)
+                      /\ e.ahead <= e.la + 2
+                     THEN drift ELSE Append(drift, l)
      ELSE
        \* op = "procrun": an un-gated run of a Processor: e.results is the sorted list of operation
        \* numbers for which a (correct) result arrived before the result channel was closed
